@@ -90,189 +90,132 @@ Proof. induction pre as [|p pre IH]; intros; simpl; [reflexivity|]. rewrite IH. 
 Lemma nth_app_here : forall (pre : list val) y t d, nth (length pre) (pre ++ y :: t) d = y.
 Proof. induction pre as [|p pre IH]; intros; simpl; [reflexivity|]. apply IH. Qed.
 
-Lemma apply_trim_updates_aux : forall k ren data pre pre',
+Definition slot (k : ckind) (ren : renames) (ids : list Z) (i : nat) (v : val) : val :=
+  if is_record ids i then new_cell k ren v else v.
+
+Fixpoint slots_from (k : ckind) (ren : renames) (ids : list Z) (i : nat) (data : list val) : list val :=
+  match data with [] => [] | v :: t => slot k ren ids i v :: slots_from k ren ids (S i) t end.
+
+Lemma slots_from_spec : forall k ren ids data i, slots_from k ren ids i data = spec_data_from k ren ids i data.
+Proof.
+  intros k ren ids data. induction data as [|v t IH]; intros i; simpl; [reflexivity|].
+  unfold slot. rewrite new_cell_spec, IH. reflexivity.
+Qed.
+
+Lemma apply_trim_updates_aux : forall k ren ids data pre pre',
   length pre = length pre' ->
   apply_updates (pre' ++ data)
     (filter (fun u => negb (py_eq (snd u) (nth (fst u) (pre ++ data) VNone)))
-            (updates_from k ren (length pre) data))
-  = pre' ++ map (new_cell k ren) data.
+            (filter (fun u => is_record ids (fst u)) (updates_from k ren (length pre) data)))
+  = pre' ++ slots_from k ren ids (length pre) data.
 Proof.
-  intros k ren data. induction data as [|v t IH]; intros pre pre' Hlen; simpl.
+  intros k ren ids data. induction data as [|v t IH]; intros pre pre' Hlen; simpl.
   - reflexivity.
   - assert (Hstep : forall n, length (pre ++ [v]) = length (pre' ++ [n])).
     { intros n. rewrite !app_length. simpl. lia. }
     assert (Hl : S (length pre) = length (pre ++ [v])). { rewrite app_length. simpl. lia. }
-    unfold new_cell at 1. destruct (rename_cell k ren v) as [n|] eqn:Hr.
-    + simpl. rewrite nth_app_here. destruct (py_eq n v) eqn:Heq; simpl.
-      * assert (n = v) by (eapply rename_cell_py_eq; eassumption). subst n.
-        specialize (IH (pre ++ [v]) (pre' ++ [v]) (Hstep v)).
-        rewrite <- !app_assoc in IH. simpl in IH. rewrite <- Hl in IH. exact IH.
-      * rewrite Hlen, set_nth_app.
-        specialize (IH (pre ++ [v]) (pre' ++ [n]) (Hstep n)).
-        rewrite <- !app_assoc in IH. simpl in IH. rewrite <- Hl, Hlen in IH. rewrite <- Hlen. rewrite Hlen. exact IH.
-    + specialize (IH (pre ++ [v]) (pre' ++ [v]) (Hstep v)).
-      rewrite <- !app_assoc in IH. simpl in IH. rewrite <- Hl in IH. exact IH.
+    assert (Hkeep : apply_updates (pre' ++ v :: t)
+              (filter (fun u => negb (py_eq (snd u) (nth (fst u) (pre ++ v :: t) VNone)))
+                 (filter (fun u => is_record ids (fst u)) (updates_from k ren (S (length pre)) t)))
+            = pre' ++ v :: slots_from k ren ids (S (length pre)) t).
+    { specialize (IH (pre ++ [v]) (pre' ++ [v]) (Hstep v)).
+      rewrite <- !app_assoc in IH. simpl in IH. rewrite <- Hl in IH. exact IH. }
+    unfold slot, new_cell. destruct (rename_cell k ren v) as [n|] eqn:Hr.
+    + simpl. destruct (is_record ids (length pre)) eqn:Hrec; simpl.
+      * rewrite nth_app_here. destruct (py_eq n v) eqn:Heq; simpl.
+        -- assert (n = v) by (eapply rename_cell_py_eq; eassumption). subst n. exact Hkeep.
+        -- rewrite Hlen, set_nth_app.
+           specialize (IH (pre ++ [v]) (pre' ++ [n]) (Hstep n)).
+           rewrite <- !app_assoc in IH. simpl in IH. rewrite <- Hl, Hlen in IH. exact IH.
+      * exact Hkeep.
+    + destruct (is_record ids (length pre)); exact Hkeep.
 Qed.
 
-Lemma apply_trim_updates : forall k ren data,
-  apply_updates data (trim data (updates k ren data)) = map (spec_cell k ren) data.
+Lemma apply_trim_updates : forall k ren ids data,
+  apply_updates data (trim data (only_records ids (updates k ren data))) = spec_data k ren ids data.
 Proof.
-  intros k ren data. unfold trim, updates.
-  pose proof (apply_trim_updates_aux k ren data [] [] eq_refl) as H. simpl in H. rewrite H.
-  apply map_ext. intros v. apply new_cell_spec.
+  intros k ren ids data. unfold trim, only_records, updates, spec_data.
+  pose proof (apply_trim_updates_aux k ren ids data [] [] eq_refl) as H. simpl in H. rewrite H.
+  apply slots_from_spec.
 Qed.
 
-Lemma updates_from_in : forall k ren data i j n,
-  In (j, n) (updates_from k ren i data) <->
-  (i <= j)%nat /\ exists v, nth_error data (j - i) = Some v /\ rename_cell k ren v = Some n.
+(* after the repair the assertion of docactions.BulkUpdateRecord cannot fail: the data half is total *)
+Lemma rename_column_total : forall k ren ids data,
+  rename_column k ren ids data = Ok (spec_data k ren ids data).
 Proof.
-  intros k ren data. induction data as [|v t IH]; intros i j n; simpl.
-  - split; [tauto|]. intros [_ [v [H _]]]. destruct (j - i)%nat; discriminate.
-  - assert (Hrest : In (j, n) (updates_from k ren (S i) t) <->
-                    (S i <= j)%nat /\ exists v', nth_error t (j - S i) = Some v' /\ rename_cell k ren v' = Some n)
-      by apply IH.
-    assert (Hshift : (S i <= j)%nat -> (j - i = S (j - S i))%nat) by lia.
-    destruct (rename_cell k ren v) as [m|] eqn:Hr.
-    + simpl. rewrite Hrest. split.
-      * intros [E|[Hle [v' [Hn Hc]]]].
-        -- injection E as <- <-. split; [lia|]. exists v. rewrite Nat.sub_diag. auto.
-        -- split; [lia|]. exists v'. rewrite (Hshift Hle). auto.
-      * intros [Hle [v' [Hn Hc]]]. destruct (Nat.eq_dec i j) as [<-|Hne].
-        -- rewrite Nat.sub_diag in Hn. simpl in Hn. injection Hn as <-. left. congruence.
-        -- right. assert (Hle' : (S i <= j)%nat) by lia. split; [exact Hle'|]. exists v'.
-           rewrite (Hshift Hle') in Hn. auto.
-    + rewrite Hrest. split.
-      * intros [Hle [v' [Hn Hc]]]. split; [lia|]. exists v'. rewrite (Hshift Hle). auto.
-      * intros [Hle [v' [Hn Hc]]]. destruct (Nat.eq_dec i j) as [<-|Hne].
-        -- rewrite Nat.sub_diag in Hn. simpl in Hn. injection Hn as <-. congruence.
-        -- assert (Hle' : (S i <= j)%nat) by lia. split; [exact Hle'|]. exists v'.
-           rewrite (Hshift Hle') in Hn. auto.
-Qed.
-
-Lemma trim_in : forall k ren data j n,
-  In (j, n) (trim data (updates k ren data)) <->
-  exists v, nth_error data j = Some v /\ rename_cell k ren v = Some n /\ n <> v.
-Proof.
-  intros k ren data j n. unfold trim, updates. rewrite filter_In, updates_from_in. cbn [fst snd].
-  rewrite Nat.sub_0_r. split.
-  - intros [[_ [v [Hn Hc]]] Hne]. exists v. repeat split; try assumption.
-    rewrite (nth_error_nth _ _ VNone Hn) in Hne. intros ->. rewrite py_eq_refl in Hne. discriminate.
-  - intros [v [Hn [Hc Hne]]]. split; [split; [lia|]; exists v; auto|].
-    rewrite (nth_error_nth _ _ VNone Hn). destruct (py_eq n v) eqn:E; [|reflexivity].
-    exfalso. apply Hne. eapply rename_cell_py_eq; eassumption.
-Qed.
-
-Lemma rename_column_sound : forall k ren ids data d,
-  rename_column k ren ids data = Ok d -> d = map (spec_cell k ren) data.
-Proof.
-  intros k ren ids data d H. unfold rename_column in H.
-  destruct (forallb _ _); [|discriminate]. injection H as <-. apply apply_trim_updates.
-Qed.
-
-Lemma rename_column_ok : forall k ren ids data,
-  safe_column k ren ids data -> rename_column k ren ids data = Ok (map (spec_cell k ren) data).
-Proof.
-  intros k ren ids data Hsafe. unfold rename_column.
-  destruct (forallb _ _) eqn:Hall.
-  - rewrite apply_trim_updates. reflexivity.
-  - exfalso. assert (Ht : forallb (fun u => is_record ids (fst u)) (trim data (updates k ren data)) = true).
-    { apply forallb_forall. intros [j n] Hin. apply trim_in in Hin. destruct Hin as [v [Hn [Hc Hne]]].
-      cbn [fst]. eapply Hsafe; eassumption. }
-    congruence.
-Qed.
-
-Lemma rename_column_err : forall k ren ids data e,
-  rename_column k ren ids data = Err e ->
-  e = ErrAssertion /\ exists i v n, nth_error data i = Some v /\ rename_cell k ren v = Some n /\ n <> v /\
-                                    is_record ids i = false.
-Proof.
-  intros k ren ids data e H. unfold rename_column in H.
-  destruct (forallb _ _) eqn:Hall; [discriminate|]. injection H as <-. split; [reflexivity|].
-  assert (Hex : existsb (fun u => negb (is_record ids (fst u))) (trim data (updates k ren data)) = true).
-  { destruct (existsb _ _) eqn:E; [reflexivity|]. exfalso.
-    assert (forallb (fun u => is_record ids (fst u)) (trim data (updates k ren data)) = true); [|congruence].
-    apply forallb_forall. intros u Hu. destruct (is_record ids (fst u)) eqn:Hr; [reflexivity|].
-    assert (existsb (fun u => negb (is_record ids (fst u))) (trim data (updates k ren data)) = true); [|congruence].
-    apply existsb_exists. exists u. rewrite Hr. auto. }
-  apply existsb_exists in Hex. destruct Hex as [[j n] [Hin Hr]]. apply trim_in in Hin.
-  destruct Hin as [v [Hn [Hc Hne]]]. exists j, v, n. cbn [fst] in Hr. apply negb_true_iff in Hr. auto.
-Qed.
-
-Lemma rename_column_ok_safe : forall k ren ids data d,
-  rename_column k ren ids data = Ok d -> safe_column k ren ids data.
-Proof.
-  intros k ren ids data d H. unfold rename_column in H.
-  destruct (forallb _ _) eqn:Hall; [|discriminate]. rewrite forallb_forall in Hall.
-  intros i v n Hn Hc Hne. apply (Hall (i, n)). apply trim_in. exists v. auto.
+  intros k ren ids data. unfold rename_column.
+  assert (H : forallb (fun u => is_record ids (fst u)) (trim data (only_records ids (updates k ren data))) = true).
+  { apply forallb_forall. intros u Hu. unfold trim, only_records in Hu.
+    apply filter_In in Hu. destruct Hu as [Hu _]. apply filter_In in Hu. apply Hu. }
+  rewrite H, apply_trim_updates. reflexivity.
 Qed.
 
 (* ---------------------------------------------------------------- the table's columns *)
 
-Definition map_target (k : ckind) (ren : renames) (cid : str) (cols : list (str * list val)) :=
-  map (fun c => if str_eqb (fst c) cid then (fst c, map (spec_cell k ren) (snd c)) else c) cols.
-
-Lemma rename_cols_sound : forall k ren ids cid cols cols',
-  rename_cols k ren ids cid cols = Ok cols' -> cols' = map_target k ren cid cols.
+Lemma rename_cols_total : forall k ren ids cid cols,
+  rename_cols k ren ids cid cols = Ok (spec_cols k ren ids cid false cols).
 Proof.
-  intros k ren ids cid cols. induction cols as [|[c data] rest IH]; intros cols' H; simpl in H.
-  - injection H as <-. reflexivity.
-  - simpl. destruct (str_eqb c cid) eqn:E.
-    + destruct (rename_column k ren ids data) as [d|] eqn:Hd; [|discriminate].
-      destruct (rename_cols k ren ids cid rest) as [r|]; [|discriminate].
-      injection H as <-. rewrite (rename_column_sound _ _ _ _ _ Hd), (IH r eq_refl). reflexivity.
-    + destruct (rename_cols k ren ids cid rest) as [r|]; [|discriminate].
-      injection H as <-. rewrite (IH r eq_refl). reflexivity.
-Qed.
-
-Lemma rename_cols_ok : forall k ren ids cid cols,
-  (forall c data, In (c, data) cols -> str_eqb c cid = true -> safe_column k ren ids data) ->
-  rename_cols k ren ids cid cols = Ok (map_target k ren cid cols).
-Proof.
-  intros k ren ids cid cols. induction cols as [|[c data] rest IH]; intros Hsafe; simpl; [reflexivity|].
-  rewrite IH by (intros c' d' Hin; apply Hsafe; right; exact Hin).
-  destruct (str_eqb c cid) eqn:E; [|reflexivity].
-  rewrite (rename_column_ok k ren ids data (Hsafe c data (or_introl eq_refl) E)). reflexivity.
+  intros k ren ids cid cols. unfold spec_cols. induction cols as [|[c data] rest IH]; simpl; [reflexivity|].
+  rewrite IH, rename_column_total. destruct (str_eqb c cid); reflexivity.
 Qed.
 
 (* ---------------------------------------------------------------- filters *)
 
-Lemma cols_eqb_eq : forall a b, cols_eqb a b = true <-> a = b.
+Lemma fentry_eqb_eq : forall a b, fentry_eqb a b = true <-> a = b.
 Proof.
-  induction a as [|[i l] a IH]; destruct b as [|[j m] b]; simpl.
+  intros a b. destruct a as [l|s], b as [m|t]; simpl.
+  - rewrite vals_eqb_eq. split; congruence.
+  - split; discriminate.
+  - split; discriminate.
+  - rewrite Z.eqb_eq. split; congruence.
+Qed.
+
+Lemma entries_eqb_eq : forall a b, entries_eqb a b = true <-> a = b.
+Proof.
+  induction a as [|[i x] a IH]; destruct b as [|[j y] b]; simpl.
   - split; reflexivity.
   - split; discriminate.
   - split; discriminate.
-  - rewrite !andb_true_iff, str_eqb_eq, vals_eqb_eq, IH. split.
+  - rewrite !andb_true_iff, str_eqb_eq, fentry_eqb_eq, IH. split.
     + intros [[-> ->] ->]. reflexivity.
     + intros E. injection E as -> -> ->. auto.
 Qed.
 
-Lemma rename_entries_wf : forall ren es,
-  forallb by_value_entry es = true ->
-  rename_entries ren es = Ok (spec_entries ren es) /\
-  entries_same es (spec_entries ren es) = cols_eqb (filter_content es) (spec_entries ren es).
+Lemma rename_entries_spec : forall ren es, rename_entries ren es = spec_entries ren es.
 Proof.
-  intros ren es. induction es as [|[k e] rest IH]; intros H; simpl in *.
-  - split; reflexivity.
-  - apply andb_true_iff in H. destruct H as [He Hrest]. destruct (IH Hrest) as [IH1 IH2].
-    unfold by_value_entry in He. simpl in He. destruct e as [l| | | ]; try discriminate.
-    simpl. rewrite IH1. split; [reflexivity|]. rewrite IH2, str_eqb_refl. reflexivity.
+  intros ren es. unfold rename_entries, spec_entries. apply map_ext. intros [k e]. simpl.
+  destruct e; reflexivity.
 Qed.
 
-Lemma rename_filter_wf : forall ren f,
-  well_formed_filter f = true -> rename_filter ren f = Ok (spec_filter ren f).
+Lemma rename_filter_ok : forall ren f,
+  is_object_filter f = true -> rename_filter ren f = Ok (spec_filter ren f).
 Proof.
-  intros ren f H. destruct f as [|es|]; simpl in *; try reflexivity; [|discriminate].
-  destruct (rename_entries_wf ren es H) as [H1 H2]. rewrite H1, H2. reflexivity.
+  intros ren f H. destruct f as [|es|]; simpl in *; try reflexivity. discriminate.
 Qed.
 
 Lemma rename_filters_ok : forall ren colref fs,
-  filters_well_formed colref fs -> rename_filters ren colref fs = Ok (spec_filters ren colref fs).
+  filters_are_objects colref fs -> rename_filters ren colref fs = Ok (spec_filters ren colref fs).
 Proof.
   intros ren colref fs. induction fs as [|[cr f] rest IH]; intros Hwf; simpl; [reflexivity|].
   rewrite IH by (intros cr' f' Hin; apply Hwf; right; exact Hin).
   destruct (Z.eqb cr colref) eqn:E; [|reflexivity].
-  apply Z.eqb_eq in E. rewrite (rename_filter_wf ren f (Hwf cr f (or_introl eq_refl) E)). reflexivity.
+  apply Z.eqb_eq in E. rewrite (rename_filter_ok ren f (Hwf cr f (or_introl eq_refl) E)). reflexivity.
+Qed.
+
+(* the only failure left: a saved filter of the column that is JSON but not an object *)
+Lemma rename_filters_err : forall ren colref fs e,
+  rename_filters ren colref fs = Err e -> e = ErrAttributeError /\ In (colref, FNotObj) fs.
+Proof.
+  intros ren colref fs. induction fs as [|[cr f] rest IH]; intros e H; simpl in H; [discriminate|].
+  destruct (Z.eqb cr colref) eqn:E.
+  - apply Z.eqb_eq in E. subst cr. destruct f as [|es|]; simpl in H.
+    + destruct (rename_filters ren colref rest) as [r|x] eqn:Hr; [discriminate|]. injection H as <-.
+      destruct (IH x eq_refl) as [H1 H2]. split; [exact H1|right; exact H2].
+    + destruct (rename_filters ren colref rest) as [r|x] eqn:Hr; [discriminate|]. injection H as <-.
+      destruct (IH x eq_refl) as [H1 H2]. split; [exact H1|right; exact H2].
+    + injection H as <-. split; [reflexivity|left; reflexivity].
+  - destruct (rename_filters ren colref rest) as [r|x] eqn:Hr; [discriminate|]. injection H as <-.
+    destruct (IH x eq_refl) as [H1 H2]. split; [exact H1|right; exact H2].
 Qed.
 
 (* whatever the filters of the column look like, records of other columns are reported untouched *)
@@ -297,26 +240,39 @@ Qed.
 
 (* ---------------------------------------------------------------- the action *)
 
-Theorem rename_simultaneous : forall st cid k is_formula colref ren cols' fl',
-  rename_action st cid k is_formula colref ren = Ok (cols', fl') ->
-  cols' = spec_cols k ren cid is_formula (s_cols st).
+(* the full statement: the action is the specification, for every state, column and mapping *)
+Theorem rename_action_full : forall st cid k is_formula colref ren,
+  filters_are_objects colref (s_filters st) ->
+  rename_action st cid k is_formula colref ren =
+  Ok (spec_cols k ren (s_ids st) cid is_formula (s_cols st), spec_filters ren colref (s_filters st)).
 Proof.
-  intros st cid k f colref ren cols' fl' H. unfold rename_action in H. unfold spec_cols.
-  destruct f.
-  - destruct (rename_filters ren colref (s_filters st)); [|discriminate]. injection H as <- _. reflexivity.
-  - destruct (rename_cols k ren (s_ids st) cid (s_cols st)) as [c|] eqn:Hc; [|discriminate].
-    destruct (rename_filters ren colref (s_filters st)); [|discriminate]. injection H as <- _.
-    apply (rename_cols_sound _ _ _ _ _ _ Hc).
+  intros st cid k f colref ren Hobj. unfold rename_action.
+  rewrite (rename_filters_ok ren colref _ Hobj). destruct f; [reflexivity|].
+  rewrite rename_cols_total. reflexivity.
 Qed.
 
-Theorem rename_filters_spec : forall st cid k is_formula colref ren cols' fl',
+(* without any hypothesis: whenever it succeeds, the columns are the specification ... *)
+Theorem rename_simultaneous : forall st cid k is_formula colref ren cols' fl',
   rename_action st cid k is_formula colref ren = Ok (cols', fl') ->
-  filters_well_formed colref (s_filters st) ->
-  fl' = spec_filters ren colref (s_filters st).
+  cols' = spec_cols k ren (s_ids st) cid is_formula (s_cols st).
 Proof.
-  intros st cid k f colref ren cols' fl' H Hwf. unfold rename_action in H.
-  destruct (if f then Ok (s_cols st) else rename_cols k ren (s_ids st) cid (s_cols st)); [|discriminate].
-  rewrite (rename_filters_ok ren colref _ Hwf) in H. injection H as _ <-. reflexivity.
+  intros st cid k f colref ren cols' fl' H. unfold rename_action in H. destruct f.
+  - destruct (rename_filters ren colref (s_filters st)); [|discriminate]. injection H as <- _. reflexivity.
+  - rewrite rename_cols_total in H.
+    destruct (rename_filters ren colref (s_filters st)); [|discriminate]. injection H as <- _. reflexivity.
+Qed.
+
+(* ... and it fails only with AttributeError, only because of a non-object filter of this column *)
+Theorem rename_action_err : forall st cid k is_formula colref ren e,
+  rename_action st cid k is_formula colref ren = Err e ->
+  e = ErrAttributeError /\ In (colref, FNotObj) (s_filters st).
+Proof.
+  intros st cid k f colref ren e H. unfold rename_action in H.
+  assert (Hc : (if f then Ok (s_cols st) else rename_cols k ren (s_ids st) cid (s_cols st)) =
+               Ok (spec_cols k ren (s_ids st) cid f (s_cols st))).
+  { destruct f; [reflexivity|apply rename_cols_total]. }
+  rewrite Hc in H. destruct (rename_filters ren colref (s_filters st)) as [fl|x] eqn:Hf; [discriminate|].
+  injection H as <-. apply (rename_filters_err _ _ _ _ Hf).
 Qed.
 
 Theorem rename_other_filters_untouched : forall st cid k is_formula colref ren cols' fl',
@@ -328,16 +284,6 @@ Proof.
   destruct (if f then Ok (s_cols st) else rename_cols k ren (s_ids st) cid (s_cols st)); [|discriminate].
   destruct (rename_filters ren colref (s_filters st)) as [fl|] eqn:Hf; [|discriminate].
   injection H as _ <-. apply (rename_filters_frame _ _ _ _ Hf).
-Qed.
-
-Theorem rename_succeeds : forall st cid k is_formula colref ren,
-  safe_state st cid k is_formula ren -> filters_well_formed colref (s_filters st) ->
-  rename_action st cid k is_formula colref ren =
-  Ok (spec_cols k ren cid is_formula (s_cols st), spec_filters ren colref (s_filters st)).
-Proof.
-  intros st cid k f colref ren Hsafe Hwf. unfold rename_action, spec_cols.
-  rewrite (rename_filters_ok ren colref _ Hwf). destruct f; [reflexivity|].
-  rewrite rename_cols_ok by (apply Hsafe; reflexivity). reflexivity.
 Qed.
 
 (* ---------------------------------------------------------------- frame *)
@@ -372,54 +318,85 @@ Proof.
   - intros i s Hn Hm. rewrite nth_error_map, Hn. simpl. rewrite (ren_apply_miss _ _ Hm). reflexivity.
 Qed.
 
-Lemma spec_cols_other : forall k ren cid is_formula cols,
-  length (spec_cols k ren cid is_formula cols) = length cols /\
-  forall i c data, nth_error cols i = Some (c, data) -> c <> cid ->
-                   nth_error (spec_cols k ren cid is_formula cols) i = Some (c, data).
+(* the target column slot by slot: a record's cell is substituted, any other storage slot is kept *)
+Lemma spec_data_from_nth : forall k ren ids data i j v,
+  nth_error data j = Some v ->
+  nth_error (spec_data_from k ren ids i data) j =
+  Some (if is_record ids (i + j) then spec_cell k ren v else v).
 Proof.
-  intros k ren cid f cols. unfold spec_cols. destruct f; [split; auto|].
+  intros k ren ids data. induction data as [|x t IH]; intros i j v Hn.
+  - destruct j; discriminate.
+  - destruct j as [|j]; simpl in *.
+    + injection Hn as ->. rewrite Nat.add_0_r. reflexivity.
+    + rewrite (IH (S i) j v Hn). replace (S i + j)%nat with (i + S j)%nat by lia. reflexivity.
+Qed.
+
+Lemma spec_data_nth : forall k ren ids data j v,
+  nth_error data j = Some v ->
+  nth_error (spec_data k ren ids data) j = Some (if is_record ids j then spec_cell k ren v else v).
+Proof. intros. unfold spec_data. rewrite (spec_data_from_nth k ren ids data 0 j v H). reflexivity. Qed.
+
+Lemma spec_data_length : forall k ren ids data, length (spec_data k ren ids data) = length data.
+Proof.
+  intros k ren ids data. unfold spec_data. generalize 0%nat. induction data as [|x t IH]; intros i; simpl; auto.
+Qed.
+
+Lemma spec_cols_other : forall k ren ids cid is_formula cols,
+  length (spec_cols k ren ids cid is_formula cols) = length cols /\
+  forall i c data, nth_error cols i = Some (c, data) -> c <> cid ->
+                   nth_error (spec_cols k ren ids cid is_formula cols) i = Some (c, data).
+Proof.
+  intros k ren ids cid f cols. unfold spec_cols. destruct f; [split; auto|].
   split; [apply map_length|]. intros i c data Hn Hne. rewrite nth_error_map. unfold str in *. rewrite Hn. simpl.
   rewrite (str_eqb_false _ _ Hne). reflexivity.
 Qed.
 
-Lemma spec_cols_target : forall k ren cid cols i data,
+Lemma spec_cols_target : forall k ren ids cid cols i data,
   nth_error cols i = Some (cid, data) ->
-  nth_error (spec_cols k ren cid false cols) i = Some (cid, map (spec_cell k ren) data).
+  nth_error (spec_cols k ren ids cid false cols) i = Some (cid, spec_data k ren ids data).
 Proof.
-  intros k ren cid cols i data Hn. unfold spec_cols. rewrite nth_error_map. unfold str in *. rewrite Hn. simpl.
+  intros k ren ids cid cols i data Hn. unfold spec_cols. rewrite nth_error_map. unfold str in *. rewrite Hn. simpl.
   rewrite str_eqb_refl. reflexivity.
 Qed.
 
-(* filters: same keys in the same order, lists of the same length, element i is the substitution of element i,
-   and the record is left alone when nothing in it is mapped *)
+(* filters: same keys in the same order; a list entry is the element-wise substitution, any other entry is kept *)
 Lemma spec_entries_shape : forall ren es,
   map fst (spec_entries ren es) = map fst es /\
-  forall i k e, nth_error es i = Some (k, e) ->
-                nth_error (spec_entries ren es) i = Some (k, map (rename_elem ren) (entry_list e)).
+  (forall i k l, nth_error es i = Some (k, FList l) ->
+                 nth_error (spec_entries ren es) i = Some (k, FList (map (rename_elem ren) l))) /\
+  (forall i k t, nth_error es i = Some (k, FOther t) -> nth_error (spec_entries ren es) i = Some (k, FOther t)).
 Proof.
-  intros ren es. unfold spec_entries. split; [rewrite map_map; reflexivity|].
-  intros i k e Hn. rewrite nth_error_map. unfold str in *. rewrite Hn. reflexivity.
+  intros ren es. unfold spec_entries. split; [rewrite map_map; reflexivity|]. split.
+  - intros i k l Hn. rewrite nth_error_map. unfold str in *. rewrite Hn. reflexivity.
+  - intros i k t Hn. rewrite nth_error_map. unfold str in *. rewrite Hn. reflexivity.
 Qed.
 
 Lemma spec_filter_untouched : forall ren es,
-  (forall k e v, In (k, e) es -> In v (entry_list e) -> in_renames ren v = false) ->
+  (forall k l v, In (k, FList l) es -> In v l -> in_renames ren v = false) ->
   spec_filter ren (FObj es) = None.
 Proof.
-  intros ren es H. simpl. assert (E : spec_entries ren es = filter_content es).
-  { unfold spec_entries, filter_content. apply map_ext_in. intros [k e] Hin. simpl. f_equal.
-    rewrite <- (map_id (entry_list e)) at 2. apply map_ext_in. intros v Hv.
-    apply rename_elem_miss. eapply H; eassumption. }
-  rewrite E. rewrite (proj2 (cols_eqb_eq _ _) eq_refl). reflexivity.
+  intros ren es H. simpl. assert (E : spec_entries ren es = es).
+  { unfold spec_entries. rewrite <- (map_id es) at 2. apply map_ext_in. intros [k e] Hin. simpl.
+    destruct e as [l|t]; [|reflexivity]. f_equal. f_equal.
+    rewrite <- (map_id l) at 2. apply map_ext_in. intros v Hv. apply rename_elem_miss. eapply H; eassumption. }
+  rewrite E. rewrite (proj2 (entries_eqb_eq _ _) eq_refl). reflexivity.
 Qed.
 
 Lemma spec_filter_changed : forall ren f new,
-  spec_filter ren f = Some new ->
-  exists es, f = FObj es /\ new = spec_entries ren es /\ new <> filter_content es.
+  spec_filter ren f = Some new -> exists es, f = FObj es /\ new = spec_entries ren es /\ new <> es.
 Proof.
   intros ren f new H. destruct f as [|es|]; simpl in H; try discriminate.
-  destruct (cols_eqb (filter_content es) (spec_entries ren es)) eqn:E; [discriminate|].
+  destruct (entries_eqb es (spec_entries ren es)) eqn:E; [discriminate|].
   injection H as <-. exists es. repeat split. intros Heq. rewrite Heq in E.
-  rewrite (proj2 (cols_eqb_eq _ _) eq_refl) in E. discriminate.
+  rewrite (proj2 (entries_eqb_eq _ _) eq_refl) in E. discriminate.
+Qed.
+
+(* a range filter (no list entry at all) is never rewritten *)
+Lemma spec_filter_range_kept : forall ren es,
+  (forall k e, In (k, e) es -> exists t, e = FOther t) -> spec_filter ren (FObj es) = None.
+Proof.
+  intros ren es H. apply spec_filter_untouched. intros k l v Hin _.
+  destruct (H k (FList l) Hin) as [t Ht]. discriminate.
 Qed.
 
 (* swaps *)
